@@ -89,8 +89,10 @@ fn resolve_escape_sequences_to_bytes(escaped: &str) -> Result<Vec<u8>> {
                         }
                         '\\' => bytes.push(ch as u8),
                         _ => {
+                            // not an escape sequence: both characters stand for themselves
                             bytes.push(ch as u8);
-                            bytes.push(ch2 as u8);
+                            let add = ch2.encode_utf8(&mut buf).as_bytes();
+                            bytes.extend(add)
                         }
                     }
                 } else {
